@@ -26,6 +26,10 @@ type Bucket struct {
 	Quantiles []float64
 	NotExists int64
 	N         int // number of samples (model only)
+	// Scale (model only): the magnitude the rounding error of a sum / average is relative to -
+	// the sum of the absolute values (divided by N for avg).  Values of opposite sign cancel,
+	// and two correct summation orders then differ by far more than a fraction of the result.
+	Scale float64
 }
 
 type AggRes struct {
@@ -133,9 +137,16 @@ func Agg(matching []*Doc, s AggSpec) (AggRes, error) {
 			continue
 		}
 		sort.Float64s(xs)
-		sum := 0.0
+		sum, abs := 0.0, 0.0
 		for _, x := range xs {
 			sum += x
+			abs += math.Abs(x)
+		}
+		switch s.Func {
+		case "sum":
+			b.Scale = abs
+		case "avg":
+			b.Scale = abs / float64(len(xs))
 		}
 		switch s.Func {
 		case "sum":
@@ -168,6 +179,17 @@ func Agg(matching []*Doc, s AggSpec) (AggRes, error) {
 }
 
 // CloseEnough: exact for equal values and NaN==NaN; relative tolerance otherwise.
+// CloseEnoughScaled: like CloseEnough, with the error bound relative to at least scale.
+func CloseEnoughScaled(a, b, tol, scale float64) bool {
+	if CloseEnough(a, b, tol) {
+		return true
+	}
+	if math.IsNaN(a) || math.IsNaN(b) || math.IsInf(a, 0) || math.IsInf(b, 0) || math.IsInf(scale, 0) {
+		return false
+	}
+	return math.Abs(a-b) <= tol*scale
+}
+
 func CloseEnough(a, b, tol float64) bool {
 	if math.IsNaN(a) || math.IsNaN(b) {
 		return math.IsNaN(a) && math.IsNaN(b)
